@@ -76,6 +76,54 @@ Theorem C08_example_witness_repaired :
   lookup (d_objects (load_par w_s2 w_file)) (10, 0)%N = Some (OInt 1).
 Proof. exact witness_repaired. Qed.
 
+(* ---- encrypted files: the object streams are expanded after decryption, at the end of the load (Document::decrypt_raw) ---- *)
+(* (9) the property for every file, encrypted or not: whatever decrypt_object and ObjectStream::new compute ([c]), and whether or
+   not the empty password opens the file, the load under every schedule returns what the sequential load returns -- the same
+   document or the same failure *)
+Theorem C08_full_par_eq_seq :
+  forall c f s, file_wf f -> sched_valid f s -> load_full_par c s f = load_full_seq c f.
+Proof. exact full_par_eq_seq. Qed.
+
+Theorem C08_full_schedule_independent :
+  forall c f s1 s2, file_wf f -> sched_valid f s1 -> sched_valid f s2 -> load_full_par c s1 f = load_full_par c s2 f.
+Proof. intros c f s1 s2 W V1 V2. rewrite (full_par_eq_seq c f s1 W V1), (full_par_eq_seq c f s2 W V2). reflexivity. Qed.
+
+(* (10) the second merge follows the rules of the first: on the objects of a loaded document the expansion after decryption is the
+   reader's merge (sorted by container number, the members the cross-reference table places in that container first, then the
+   numbers still absent) applied to the blocks keyed by the object numbers of the object streams *)
+Theorem C08_enc_expansion_as_reader :
+  forall c f eid m, decrypt_all c eid (d_objects (load_seq f)) = Some m ->
+    merge_in_order (f_compressed f) (expand_blocks c m) (unstrip m) = merge (f_compressed f) (expand_blocks c m) (unstrip m).
+Proof. exact enc_load_expansion_as_reader. Qed.
+
+(* (11) and that merge does not depend on the order in which the blocks arrive when the object streams have distinct numbers *)
+Theorem C08_enc_expansion_perm_invariant :
+  forall c xc m bl' base, msorted m -> NoDup (map fst (expand_blocks c m)) -> Permutation bl' (expand_blocks c m) ->
+    merge xc bl' base = merge_in_order xc (expand_blocks c m) base.
+Proof. exact enc_expansion_perm_invariant. Qed.
+
+(* non-vacuity of (9),(10): an encrypted file that the empty password opens, two object streams holding object 10 with different
+   bodies, the cross-reference stream placing it in the second; a schedule that cuts the entries in three *)
+Theorem C08_enc_example :
+  file_wf xe_file /\ sched_valid xe_file xe_sched /\
+  load_full_par xe_crypt xe_sched xe_file = load_full_seq xe_crypt xe_file /\
+  lookup (lres_objects (load_full_seq xe_crypt xe_file)) (1, 0)%N = Some (ODict [(bs "Lang", OStr (bs "en-US") false)]) /\
+  lookup (lres_objects (load_full_seq xe_crypt xe_file)) (2, 0)%N = Some (OStream xe_os (bs "c2")) /\
+  lookup (lres_objects (load_full_seq xe_crypt xe_file)) (10, 0)%N = Some (OInt 2) /\
+  lookup (lres_objects (load_full_seq xe_crypt xe_file)) (11, 0)%N = Some (OName (bs "A")) /\
+  lookup (lres_objects (load_full_seq xe_crypt xe_file)) (12, 0)%N = None /\
+  lookup (lres_objects (load_full_seq xe_crypt xe_file)) (12, 2)%N = Some (OName (bs "New")) /\
+  lookup (lres_objects (load_full_seq xe_crypt xe_file)) (5, 0)%N = None /\
+  lres_trailer (load_full_seq xe_crypt xe_file) = [(bs "Size", OInt 13); (bs "ID", OArr []); (bs "Root", ORef 1 0)].
+Proof. exact enc_example_holds. Qed.
+
+(* the expansion as it was before /repo 959d50f on the same file: object 10 from the first object stream, and generation 0 of
+   object 12 loaded beside generation 2 -- not what the reader does with the same file when it is not encrypted *)
+Theorem C08_enc_old_expansion_differs :
+  lookup (lres_objects (decrypt_doc_old xe_crypt (load_seq xe_file))) (10, 0)%N = Some (OInt 1) /\
+  lookup (lres_objects (decrypt_doc_old xe_crypt (load_seq xe_file))) (12, 0)%N = Some (OName (bs "Old")).
+Proof. exact enc_old_expansion_differs. Qed.
+
 Print Assumptions C08_par_eq_seq.
 Print Assumptions C08_schedule_independent.
 Print Assumptions C08_zero_len_commutes.
@@ -87,3 +135,9 @@ Print Assumptions C08_pinned_par_eq_seq.
 Print Assumptions C08_refuted_pinned.
 Print Assumptions C08_example.
 Print Assumptions C08_example_witness_repaired.
+Print Assumptions C08_full_par_eq_seq.
+Print Assumptions C08_full_schedule_independent.
+Print Assumptions C08_enc_expansion_as_reader.
+Print Assumptions C08_enc_expansion_perm_invariant.
+Print Assumptions C08_enc_example.
+Print Assumptions C08_enc_old_expansion_differs.
